@@ -82,6 +82,28 @@ theorem std_forward (net : Net W) (σ : Nat → W → Option W) (lvl : Nat → N
   · have := (h2.neuron o _ hn (by simpa using hs) (by have := hk o ho; omega)).2.2
     exact evalNode_mono_le net σ _ _ f hf o _ this
 
+/-- **Standard solver, as the property words it**: a freshly built (or flushed) network whose `inputs` list holds all
+    its sensors; `LoadSensors(xs)` succeeds (either branch; in the second branch bias nodes are loaded with 1.0 by
+    `loadNe`); then `ForwardSteps(k)`, `k ≥ 1`, `k ≥` rank of every output, succeeds and every output equals the
+    feed-forward value of the loaded sensor values. -/
+theorem std_forward_fresh (net : Net W) (σ : Nat → W → Option W) (lvl : Nat → Nat) (hff : FFNet net lvl = true)
+    (hσ : ∀ (i : Nat) (nd : NNodeS W), net.nodes[i]? = some nd → nd.isNeuron = true → ∀ x, (σ nd.act x).isSome = true)
+    (hin : ∀ (i : Nat) (nd : NNodeS W), net.nodes[i]? = some nd → nd.isSensor = true → i ∈ net.inputs)
+    (xs : List W) (hload : (loadSensors net xs (init net)).2 = none)
+    (k : Nat) (hk1 : 1 ≤ k) (hk : ∀ o ∈ net.outputs, lvl o ≤ k) :
+    (forwardSteps net σ (k : Int) (loadSensors net xs (init net)).1).2 = (true, none) ∧
+      ∀ o ∈ net.outputs, ∀ f, lvl o + 1 ≤ f →
+        evalNode net σ (fun i => (get (loadSensors net xs (init net)).1 i).activation) f o =
+          some (get (forwardSteps net σ (k : Int) (loadSensors net xs (init net)).1).1 o).activation := by
+  obtain ⟨hl, hc⟩ := loadSensors_loaded net xs (init net) hload
+  have hlen : (loadSensors net xs (init net)).1.length = net.nodes.length := by rw [hl]; simp [init]
+  refine std_forward net σ lvl hff hσ _ hlen (fun i nd hi hs => ?_) k hk1 hk
+  have hlt : i < net.nodes.length := by
+    rcases Nat.lt_or_ge i net.nodes.length with h | h
+    · exact h
+    · rw [List.getElem?_eq_none h] at hi; simp at hi
+  exact hc i (hin i nd hi hs) (by simp [isSensorAt, hi, hs]) (by simpa [init] using hlt)
+
 /-- the same, read through `ReadOutputs` -/
 theorem std_forward_outputs (net : Net W) (σ : Nat → W → Option W) (lvl : Nat → Nat) (hff : FFNet net lvl = true)
     (hσ : ∀ (i : Nat) (nd : NNodeS W), net.nodes[i]? = some nd → nd.isNeuron = true → ∀ x, (σ nd.act x).isSome = true)
@@ -177,6 +199,8 @@ example : (forwardSteps ffNet sigmaInt 2 (loadSensors ffNet [10] (init ffNet)).1
 /-- hidden = 3·1 + 2·10 = 23, output = 23 + 5·10 + 7·1 = 80 -/
 example : readOutputs ffNet (forwardSteps ffNet sigmaInt 2 (loadSensors ffNet [10] (init ffNet)).1).1 = [80] := by decide
 example : evalOutputs ffNet sigmaInt (sensFn ffNet [10]) = [some 80] := by decide
+/-- the bias node was loaded with 1 by the second branch of `LoadSensors` -/
+example : ((loadSensors ffNet [10] (init ffNet)).1.map (·.activation)) = [1, 10, 0, 0] := by decide
 
 /-- negative side (why "every neuron is reachable from a sensor"): input 0, dead-end hidden 1 (no incoming link),
     output 2 = hidden·1 + input·1 -/
